@@ -430,6 +430,7 @@ class State:
         self.bufs = {}  # buffer term -> consumed (linear value) ; None = unknown
         self.notes = []
         self.cut = None
+        self.entered = frozenset()
 
     def add_pc(self, cond, truth, site):
         # (condition, outcome, site, number of events recorded before the branch)
@@ -447,6 +448,7 @@ class State:
         s.bufs = dict(self.bufs)
         s.notes = list(self.notes)
         s.cut = self.cut
+        s.entered = self.entered
         return s
 
 
@@ -871,6 +873,7 @@ class Interp:
             return
         st.nframes += 1
         frame = st.nframes
+        st.entered = st.entered | {body.path}
         # arguments
         nargs = body.arg_count
         vals = list(args)
@@ -1330,7 +1333,8 @@ def m_option_map(I, st, t, args, site, depth):
 def m_try_branch(I, st, t, args, site, depth):
     out = []
     v = args[0]
-    is_opt = "Option" in (t.callee.self_ty or "")
+    sty = t.callee.self_ty or ""
+    is_opt = sty.startswith("std::option::Option") or sty.startswith("core::option::Option")
     if is_opt:
         for s2, var, payload in split_option(I, st, v):
             if var == "Some":
